@@ -124,7 +124,7 @@ def main():
     finally:
         if isolated:
             run("git -C /repo worktree remove --force %s" % target)
-            run("rm -rf /verif/.build-alt-*")
+            pass  # ./check removes its own .build-alt-<pid>
         else:
             run("git -C /repo checkout -- .")
         # evidence must describe runs on the unchanged tree: put back what was there before the mutant runs
